@@ -395,7 +395,7 @@ def cli_arms(main: FuncInfo) -> Dict[str, ast.If]:
     raise AnalysisError("cli.main: `if args.inject is not None ... elif args.check_safety ... else` chain not recognised")
 
 
-def check_faces(repo: Repo, rep: Report, dom: "SevDomain"):
+def check_faces(repo: Repo, rep: Report, dom: "SevDomain", tier: str = "quick"):
     # --- library verdict
     cs = repo.func("fickling.analysis.check_safety")
     file = cs.file
@@ -526,6 +526,9 @@ def check_faces(repo: Repo, rep: Report, dom: "SevDomain"):
     safe = dom.by_name["LIKELY_SAFE"]
     reps3 = [safe, dom.by_name["LIKELY_UNSAFE"]]
     cases = [(m,) for m in members] + list(itertools.product(members, repeat=2)) + list(itertools.product(reps3, repeat=3))
+    if tier == "thorough":
+        cases += list(itertools.product(members, repeat=3)) + list(itertools.product(reps3, repeat=4)) + list(itertools.product(reps3, repeat=5))
+        cases = list(dict.fromkeys(cases))
     module_consts = {k: ast.literal_eval(v[0]) for k, v in main.module.assigns.items() if len(v) == 1 and isinstance(v[0], ast.Constant)}
     wrong = []
     json_missing = []
@@ -605,4 +608,4 @@ def run(rep: Report, tier: str):
     rep.assume("comparisons are only ever between Severity members (isinstance(other, Severity) holds)")
     dom = check_order(repo, rep)
     check_aggregate(repo, rep)
-    check_faces(repo, rep, dom)
+    check_faces(repo, rep, dom, tier)
